@@ -12,9 +12,7 @@ Definition step (st : state) (o : op) : state * obs :=
   | OEnvMap => (st, obs_env (envmap s))
   | OCopy => ({| stacks := stacks st ++ [copy s]; cur := cur st |}, OL [])
   | OSwitch i => ({| stacks := stacks st; cur := i |}, OL [])
-  | OForEach p => (st, match for_each_map s p with
-                        | Some l => OL (OS "unordered" :: map OA l)
-                        | None => OL (map obs_of_val (for_each s p)) end)
+  | OForEach p => (st, OL (map obs_of_val (for_each s p)))
   | OGetString p => (st, match resolve s p with
                           | Some v => if printable_val v
                                       then match get_string s p with Some x => OL [OS "some"; OA x] | None => OL [OS "none"] end
